@@ -253,11 +253,12 @@ func realLoadY(raw json.RawMessage) any {
 		o.SetProjectName(a.Name, true)
 	})
 	lookup := func(k string) (string, bool) { v, ok := env[k]; return v, ok }
-	f64, f32 := map[string]string{}, map[string]string{}
+	rt := newRawTables()
 	for _, t := range trees {
-		floatTables(t, lookup, f64, f32)
+		floatTables(t, lookup, rt)
 	}
-	out := M{"env": env, "f64": f64, "f32": f32, "omit": loader.VerifOmitEmptyPatterns(), "texts": texts}
+	out := M{"env": env, "omit": loader.VerifOmitEmptyPatterns(), "texts": texts}
+	rt.into(out)
 	if err != nil {
 		out["err"] = stageOf(err.Error())
 		out["text"] = err.Error()
